@@ -328,6 +328,28 @@ Section Prims.
       match args with [VInt e] => lift_k (clone_elem cfg e) VInt s k | _ => stuck f s end
     else if is ".push" then
       match args with [VObj v; VInt e] => lift_k (push cfg ncap v e) vunit s k | _ => stuck f s end
+    (* ---- IntoIter by value (struct IntoIter { v, pos }): its slice, cloning a slice onto a vector, a new
+            iterator over a vector ---- *)
+    else if is ".as_slice" then
+      match args with
+      | [VStruct _ [(_, VObj v); (_, VPtr p); _]] =>
+          lift_k (into_as_slice cfg {| i_vec := v; i_pos := p |}) (fun es => VCtor "Slice" (map VInt es)) s k
+      | _ => stuck f s
+      end
+    else if is ".extend_from_slice" then
+      match args with
+      | [VObj w; sl] => match ctor_is "Slice" sl with
+                        | Some vs => lift_k (extend_from_slice cfg ncap w (flat_map (fun x => match x with VInt e => [e] | _ => [] end) vs)) vunit s k
+                        | None => stuck f s
+                        end
+      | _ => stuck f s
+      end
+    else if is "IntoIter::new" then
+      match args with
+      | [VObj w] => lift_k (make_into cfg w)
+                      (fun t => VStruct "Self" [("v", VObj (i_vec t)); ("pos", eptr_val (i_pos t)); ("marker", VCtor "PhantomData" [])]) s k
+      | _ => stuck f s
+      end
     (* ---- the DrainFilter object: `self` of DrainFilter::next is VCtor "FIter" [VObj i] ---- *)
     else if is "field:old_len" || is "field:new_len" || (is "field:pos" && match args with [it] => match ctor_is "FIter" it with Some _ => true | None => false end | _ => false end) then
       match args with
